@@ -358,8 +358,6 @@ def run2(R):
                 R.proof_problems.append("corpus history %s: %s" % (os.path.basename(f), l[:300]))
     R.coverage.setdefault("distribution", {})["corpus_histories"] = ncorp
     runs = [(120, R.seed, False, "")] if R.quick else [(0, R.seed, True, "-all"), (1500, R.seed + 1, False, "-rand")]
-    run_proto(R, exe, runner, 60 if R.quick else 1500, R.seed)
-    run_race(R, 10 if R.quick else 120, R.seed)
     for n, seed, exh, tag in runs:
         trace = run_harness(R, exe, n, seed, exh, tag)
         if trace is None:
@@ -369,4 +367,7 @@ def run2(R):
             os.remove(trace)
         except OSError:
             pass
+    # protocol level last: event-level failures (replayable, shrunk) are reported first
+    run_proto(R, exe, runner, 60 if R.quick else 1500, R.seed)
+    run_race(R, 10 if R.quick else 120, R.seed)
     return R.finish()
